@@ -319,16 +319,25 @@ Definition h_fold : list ev := [EAssert (T_pos 1) true; EAssert (T_neg 0) true; 
 Definition h_fold2 : list ev := [EAssert (T_pos 1) true; EAssert (T_neg 2) true; EAssert (T_pos 3) true; EAssert T_false true].
 
 Theorem request_mask_correct_refuted :
-  (* every requested index is current in each case; the computed masks differ from the requested ones *)
+  (* holds for the repaired and the unrepaired front end alike (no rejected assert in these histories): every requested index
+     is current in each case; the computed masks differ from the requested ones, or the request is refused *)
+  impl_masks (run true h_popped) [] [[2]; [0; 3]] = Some [[1]]
+  /\ spec_masks [] [[2]; [0; 3]] = [[2]]
+  /\ impl_masks (run true h_dup) [] [[2; 1; 3]; [0]] = Some [[1; 3]]
+  /\ spec_masks [] [[2; 1; 3]; [0]] = [[2; 1; 3]]
+  /\ impl_masks (run true h_fold) [] [[1; 2]; [0]] = None
+  /\ impl_masks (run true h_fold2) [] [[3; 0]; [1; 2]] = Some [[3]]
+  /\ spec_masks [] [[3; 0]; [1; 2]] = [[3; 0]]
+  /\ run true h_popped = run false h_popped /\ run true h_dup = run false h_dup
+  /\ run true h_fold = run false h_fold /\ run true h_fold2 = run false h_fold2.
+Proof. vm_compute. repeat split. Qed.
+
+(* the front end BEFORE /repo commit 125fd6d (assertions.push before insertFormula): a rejected assert shifts the indices;
+   after the commit (fixd = true) the same request gets the requested mask *)
+Theorem request_mask_unrepaired_refuted :
   impl_masks (run false h_rejected) [] [[0]; [1; 2]] = Some [[1]]
   /\ spec_masks [] [[0]; [1; 2]] = [[0]]
-  /\ impl_masks (run false h_popped) [] [[2]; [0; 3]] = Some [[1]]
-  /\ spec_masks [] [[2]; [0; 3]] = [[2]]
-  /\ impl_masks (run false h_dup) [] [[2; 1; 3]; [0]] = Some [[1; 3]]
-  /\ spec_masks [] [[2; 1; 3]; [0]] = [[2; 1; 3]]
-  /\ impl_masks (run false h_fold) [] [[1; 2]; [0]] = None
-  /\ impl_masks (run false h_fold2) [] [[3; 0]; [1; 2]] = Some [[3]]
-  /\ spec_masks [] [[3; 0]; [1; 2]] = [[3; 0]].
+  /\ impl_masks (run true h_rejected) [] [[0]; [1; 2]] = Some [[0]].
 Proof. vm_compute. repeat split. Qed.
 
 (* non-vacuity of request_mask_correct *)
